@@ -188,12 +188,21 @@ fn check_excess_parentheses(internal_expression: &Expression, context: Expressio
 /// Special case: if we have `- -foo`, or `-(-foo)` where we have already removed the parentheses, then
 /// it will lead to `--foo`, which is a comment. We must explicitly add/keep the parentheses `-(-foo)`.
 fn parenthesise_double_minus(unop: &UnOp, expression: Expression) -> Expression {
+    // Whether the expression begins with a unary minus token
+    fn starts_with_minus(expression: &Expression) -> bool {
+        match expression {
+            Expression::UnaryOperator {
+                unop: UnOp::Minus(_),
+                ..
+            } => true,
+            #[cfg(feature = "luau")]
+            Expression::TypeAssertion { expression, .. } => starts_with_minus(expression),
+            _ => false,
+        }
+    }
+
     if let UnOp::Minus(_) = unop {
-        if let Expression::UnaryOperator {
-            unop: UnOp::Minus(_),
-            ..
-        } = expression
-        {
+        if starts_with_minus(&expression) {
             let (new_expression, trailing_comments) =
                 trivia_util::take_trailing_comments(&expression);
             return Expression::Parentheses {
